@@ -482,6 +482,12 @@ class World:
             W.ev('setUp', tid)
             if in_phases:
                 W.streams('in:setUp', tid)
+            if t.get('own_stdout'):
+                # a test that captures sys.stdout itself: it saves whatever stream it finds, installs its own, and
+                # puts the saved one back in a cleanup (i.e. after its result events)
+                saved = sys.stdout
+                sys.stdout = io.StringIO()
+                self.addCleanup(lambda: setattr(sys, 'stdout', saved))
             self.addCleanup(self._cleanup)
             W.emit(tid, t, 'setUp')
             outcome(self, k['setup'], 'setUp')
